@@ -491,7 +491,8 @@ def run(ctx):
     return {
         'stats': st, 'exhaustive': True,
         'rule': 'complete product of %d (position, payload) cases x %d enclosing shapes, each run after its benign twin, plus %d texts that are not '
-                'filters; distinct = distinct filter text; every case is non-trivial (it carries a canary payload)' % (len(cases()), len(SHAPES), len(INVALID)),
+                'filters (each at 7 entry points incl. grids without rows), plus 15 incomparable comparisons under the global-state diff; setters of '
+                'interpreter-wide state are wrapped during every evaluation; distinct = distinct filter text; every case is non-trivial (it carries a canary payload)' % (len(cases()), len(SHAPES), len(INVALID)),
         'coverage': {'bounds': {'callables': [c[0] for c in CALLS], 'breakouts': len(BREAKOUTS), 'names': NAMES, 'shapes': [s[0] for s in SHAPES],
                                 'positions': sorted(set(c[0] for c in cases())), 'invalid_texts': len(INVALID)}},
         'assumptions': ['monitors: sys.addaudithook (compile/exec of anything but the generated def, open, import, os.*, subprocess, socket, ...), a canary '
